@@ -372,7 +372,7 @@ def api_histories():
 
 
 def gate_stage(rep, rs, tier):
-    nprog = 150 if tier == "quick" else 1500
+    nprog = 150 if tier == "quick" else 6000
     progs = [gen_program(rs) for _ in range(nprog)]
     runs = [run_program(p, probe=invalid_probe) for p in progs]
     body = ["From Coq Require Import List.", "From DV Require Import Model.Gate.", "Import ListNotations."]
@@ -434,7 +434,7 @@ def main(tier, seed, replay=None):
     for o in base3:
         add("enum3", o)
     from deeprob.spn.structure.node import assign_ids
-    for i in range(40 if tier == "quick" else 300):
+    for i in range(40 if tier == "quick" else 1000):
         root = G.rand_circuit(rs, G.rand_scope(rs, int(rs.randint(2, 6))), kinds=("bern",), clt=0.0, share=0.3)
         assign_ids(root)
         objs = spec_of_circuit(root)
